@@ -131,7 +131,10 @@ PROPS = {
     "C11": dict(
         level="proof",
         lemmas=[],
-        functions=[M_SI + "AsNumberAnonymizer._generate_as_number_replacement"],
+        functions=[M_SI + "AsNumberAnonymizer._generate_as_number_replacement",
+                   M_SI + "AsNumberAnonymizer.__init__",
+                   M_SI + "AsNumberAnonymizer.anonymize",
+                   M_SI + "anonymize_as_numbers"],
         generators=[_ro.gen_as_regex],
         standins=[("rt_text", "C11")],
         design_ref="7/C11",
@@ -236,7 +239,12 @@ PROPS = {
     "C10": dict(
         level="other",
         lemmas=[],
-        functions=[M_AF + "FileAnonymizer.__init__", M_SI + "_anonymize_value"],
+        functions=[M_AF + "FileAnonymizer.__init__", M_SI + "_anonymize_value",
+                   M_SI + "SensitiveWordAnonymizer.__init__",
+                   M_SI + "SensitiveWordAnonymizer._generate_conflicting_reserved_word_list",
+                   M_SI + "SensitiveWordAnonymizer._generate_sensitive_word_regex",
+                   M_SI + "SensitiveWordAnonymizer._get_or_generate_sensitive_word_replacement",
+                   M_SI + "SensitiveWordAnonymizer.anonymize"],
         standins=[("rt_files", "C10")],
         design_ref="7/C10",
         technique="contract on FileAnonymizer.__init__ (the word stage receives built-in + user reserved words, the "
@@ -253,7 +261,8 @@ PROPS = {
     "C12": dict(
         level="other",
         lemmas=[],
-        functions=[M_AF + "FileAnonymizer.anonymize_io", M_SI + "_split_line", M_SI + "_extract_enclosing_text"],
+        functions=[M_AF + "FileAnonymizer.anonymize_io", M_SI + "_split_line", M_SI + "_extract_enclosing_text",
+                   M_SI + "SensitiveWordAnonymizer.anonymize"],
         standins=[("rt_files", "C12")],
         design_ref="7/C12",
         technique="loop invariant + ghost call trace on anonymize_io (one write per input line, in order, each the "
@@ -273,7 +282,7 @@ PROPS = {
                    M_IP + "IpV6Anonymizer.__init__", M_SI + "_anonymize_value", M_SI + "_check_sensitive_item_format",
                    M_SI + "_extract_enclosing_text", M_SI + "AsNumberAnonymizer._generate_as_number_replacement",
                    M_JS + "juniper_nonrandom_encrypt", M_JS + "_gap_encode", M_AF + "FileAnonymizer.__init__",
-                   M_AF + "FileAnonymizer.anonymize_io"],
+                   M_AF + "FileAnonymizer.anonymize_io", M_SI + "SensitiveWordAnonymizer.__init__", M_SI + "SensitiveWordAnonymizer._generate_sensitive_word_regex", M_SI + "SensitiveWordAnonymizer._get_or_generate_sensitive_word_replacement", M_SI + "AsNumberAnonymizer.__init__"],
         only=["#deterministic", "#frame", "post.2", "post.1"],
         standins=[("rt_files", "C13")],
         design_ref="7/C13",
@@ -297,7 +306,7 @@ PROPS = {
                    M_SI + "_anonymize_value", M_SI + "_extract_enclosing_text", M_SI + "_check_sensitive_item_format",
                    M_SI + "_split_line", M_SI + "AsNumberAnonymizer._generate_as_number_replacement",
                    M_JS + "juniper_nonrandom_encrypt", M_JS + "_gap_encode", M_JS + "_gap", M_JS + "_fixedc",
-                   M_AF + "FileAnonymizer.anonymize_io"],
+                   M_AF + "FileAnonymizer.anonymize_io", M_SI + "SensitiveWordAnonymizer.__init__", M_SI + "SensitiveWordAnonymizer._generate_conflicting_reserved_word_list", M_SI + "SensitiveWordAnonymizer._generate_sensitive_word_regex", M_SI + "SensitiveWordAnonymizer._get_or_generate_sensitive_word_replacement", M_SI + "SensitiveWordAnonymizer.anonymize", M_SI + "AsNumberAnonymizer.__init__", M_SI + "AsNumberAnonymizer.anonymize", M_SI + "anonymize_as_numbers"],
         generators=[_ro.gen_juniper_valid],
         only=["#safe", "#raises", "#call", "decreases", "returns_a_value", "#enc", "#unroll", "juniper.VALID#"],
         standins=[("rt_files", "C14")],
